@@ -18,7 +18,7 @@ from sim.terms import EX, XSD, T, key, skey, u
 
 ID = "C05"
 LEVEL = "fault_enumeration"
-TIERS = {"quick": {"runs": 640}, "thorough": {"runs": 12000, "wall_cap": 3300}}
+TIERS = {"quick": {"runs": 2400, "wall_cap": 600}, "thorough": {"runs": 50000, "wall_cap": 3300}}
 RULE = (
     "each evaluation is one seeded document (N-Triples, N-Quads, Turtle, TriG rendered by an independent randomised writer from a known "
     "graph: quoting styles, \\u/\\U/ECHAR escapes, prefixes/base, ; , abbreviations, comments, CR/LF/CRLF, multi-byte and non-BMP characters; "
@@ -378,7 +378,7 @@ def execute(trace, ctx):
                 elif err is None:
                     ctx.check(iso.isomorphic(got, base), "C05.delivery-differs", lambda: f"{fmt} via {mode} (fault armed but not reached) differs from data=str")
             ctx.log("deliver", f"{mode} fault={fault} err={type(err).__name__ if err else None} n={len(got) if got is not None else None}")
-            ctx.state(fmt, mode, bool(fault), type(err).__name__ if err else None)
+            ctx.state(fmt, mode, tuple(op["chunks"]), repr(fault), type(err).__name__ if err else None, len(data), cfg["style_seed"] % 997, ntmod.bufsiz)
     finally:
         import shutil
 
